@@ -106,7 +106,7 @@ fn written_constructs() -> Vec<(&'static str, &'static str)> {
 pub const LOGIC: Alphabet = Alphabet {
     leaves: &[("Identifier", "u"), ("Identifier", "v"), ("Identifier", "w"), ("True", "$?"), ("False", "$!")],
     unary: &["Not", "Tis"],
-    binary: &["JumpIfTrue", "JumpIfFalse", "ElseJump", "And", "Or", "Xor"],
+    binary: &["JumpIfTrue", "JumpIfFalse", "ElseJump", "And", "Or", "Xor", "BlockBefore", "BlockAfter"],
 };
 
 pub fn hosts() -> Vec<(&'static str, HostState)> {
@@ -180,7 +180,7 @@ impl Check for C10Check {
         format!(
             "Phase truth-matrix: {} values covering every value type with empty and non-empty representatives (built through the data API and passed as the input value) x {} testing constructs (`?>`, `!>`, `&&`, `||`, `^^` on either side, `!!`, `??`, right operands of `&&`/`||`, single conditionals and two-arm chains) x 2 data implementations, exhaustively; \
              expected classification: false exactly for unit and $!, `&&`/`||` results are booleans. \
-             Phase evaluation-traces: every AST with at most k nodes (k=6 quick, 7 thorough) over identifiers u, v, w, $?, $! and the operators `?>` `!>` `|>` `&&` `||` `^^` `!!` `??`, run under 4 recording hosts (resolving none / u / v,w / all identifiers to numbers; an unresolved identifier is unit, i.e. false): \
+             Phase evaluation-traces: every AST with at most k nodes (k=6 quick, 7 thorough) over identifiers u, v, w, $?, $! and the operators `?>` `!>` `|>` `&&` `||` `^^` `!!` `??` and a side-effect block before or after a value, run under 4 recording hosts (resolving none / u / v,w / all identifiers to numbers; an unresolved identifier is unit, i.e. false): \
              the order and multiplicity of the host's resolve calls and the final value must equal the reference evaluator's (right operands only when the left does not decide, only the selected arm, chain conditions in order, at most one arm). \
              Phase written-operand-forms: {} operand forms written out in the source (literals of every kind, comparisons, logical results, nested expressions whose body is a test, applied expressions, conditionals, lists, ranges) in place of the tested value of every construct above; expected from the statically known truth of the form. \
              Phase chain-shapes: every arrangement of 2..5 conditional (`?>` / `!>`, constant condition) and bare elements joined by `|>`, every truth pattern, in four contexts, arms being host-observable identifiers: whatever the pipeline accepts and runs evaluates at most one arm (also when a bare element stands before the end, which the builder is expected to reject), and a well-formed chain evaluates exactly the arm of its first true condition. \
